@@ -2887,8 +2887,9 @@ def transform_compressible(items, constants, labels):
                 pred_env = constants
             try:
                 matches = all(pred(item, position, pred_env) for pred in preds)
-            except AssemblerError:
-                # immediate can't be evaluated (yet): leave the inst alone
+            except (AssemblerError, ValueError):
+                # operand can't be evaluated (yet) or isn't a valid register:
+                # leave the inst alone, it gets reported with its line later
                 matches = False
             if matches:
                 compressed = name
